@@ -11,7 +11,7 @@ ID = 'C12'
 LEVEL = 'model_checking'
 RULE = ('every string of length <= 3 [quick: length 3 only in 5 of the 17 positions] over the 18 characters {a Z 0 _ space \' " LF CR # % ( ) , . : é 五} '
         'plus 30 payloads (Python expressions, statements after a newline, engine/API names, dunder names, each carrying '
-        'a unique marker) as a quoted atom in EVERY syntactic position (clause-head name, body-goal name, head argument, '
+        'a unique marker) as a quoted atom in EVERY syntactic position (clause-head name - also in a parenthesised or operator head -, body-goal name, head argument, '
         'goal argument, functor name, list element, directive argument, both sides of =), and every hostile identifier as '
         'a variable name in head and body; goals named like the compiler\'s internal markers ($CUTIF, ...) with hostile arguments. For each output: (i) provenance - the marker occurs only inside constants, '
         'clause-local names or a function name that is an identifier; (ii) reference closure - module body is function '
@@ -55,11 +55,13 @@ POSITIONS = [
     ('head-argument', 'p(%s).'), ('goal-argument', 'p :- q(%s).'), ('functor-name', 'p(%s(a)).'),
     ('functor-name-body', 'p :- q(%s(X,b)).'), ('list-element', 'p([%s,b|T]).'), ('directive', ':- %s.'),
     ('directive-argument', ':- foo(%s).'), ('unify-lhs', 'p(X) :- %s = X.'), ('unify-rhs', 'p(X) :- X \\= %s.'),
+    ('paren-head', '(%s(a)).'), ('paren-head-0', '(%s).'), ('paren-head-rule', '(%s(X)) :- foo(X).'), ('paren-paren-head', '((%s(a))).'),
+    ('paren-goal', 'p :- (%s(a)).'), ('paren-argument', 'p((%s)).'), ('unop-head', '- %s(a).'), ('binop-head', '%s(a) = b.'),
     ('negated-goal', 'p :- \\+ %s(a).'), ('ite', 'p :- ( %s(a) -> %s ; %s(b) ).'), ('call-argument', 'p :- call(%s, a).'),
 ]
 
 
-QUICK3 = ('clause-head-name', 'body-goal-name', 'head-argument', 'functor-name', 'list-element')
+QUICK3 = ('clause-head-name', 'body-goal-name', 'head-argument', 'functor-name', 'list-element', 'paren-head')
 
 
 def strings(maxlen):
